@@ -385,12 +385,17 @@ func checkIndexRecording(c *Ctx, f *ssa.Function, rule, label string) {
 			e1, ok1 := affine(is.Val)
 			for _, cand := range indexChild {
 				e2, ok2 := affine(callArgs(cand)[0])
-				cs := siteIn(f, cand)
-				if cs == nil {
-					continue
+				// dominance is judged in the function both belong to (the loop may have moved into a helper the
+				// reference tree does not have as a whole), else at the call sites in f
+				domOrSame := func(x, y ssa.Instruction) bool {
+					if x.Parent() == y.Parent() {
+						return x.Block() == y.Block() || x.Block().Dominates(y.Block())
+					}
+					px, py := projectPair(x, y)
+					return px != nil && py != nil && (px.Block() == py.Block() || px.Block().Dominates(py.Block()))
 				}
-				if ok1 && ok2 && affineEqualModuloLoopStep(f, e1, e2) && (cs.Block().Dominates(is.Block()) || cs.Block() == is.Block()) {
-					if ic == nil || siteIn(f, ic).Block().Dominates(cs.Block()) {
+				if ok1 && ok2 && affineEqualModuloLoopStep(f, e1, e2) && domOrSame(cand, is) {
+					if ic == nil || domOrSame(ic, cand) {
 						ic = cand // the nearest dominating one
 					}
 				}
@@ -503,7 +508,7 @@ func checkC05(c *Ctx) Meta {
 		key := "Lock:keys-wiped-before-the-manager-lock-is-released"
 		n, bad := 0, false
 		for _, g := range bodyFns(f, exceptExported) {
-			for _, cl := range callsIn(g, "(*"+tAddrMgr+").clearPrivKeys") {
+			for _, cl := range callsInShallow(g, "(*"+tAddrMgr+").clearPrivKeys") {
 				n++
 				if !holds(li2, cl, tKMC+".mu") {
 					bad = true
@@ -532,6 +537,7 @@ func checkC05(c *Ctx) Meta {
 			}
 		}
 		var next *ssa.Next
+		f = hostFn(f, st)
 		allInstrs(f, func(in ssa.Instruction) {
 			if nx, ok := in.(*ssa.Next); ok {
 				if rg, isR := nx.Iter.(*ssa.Range); isR && backSlice(rg.X).hasField(tAddrMgr, "addrs") {
@@ -814,7 +820,7 @@ func checkAddrIndex(c *Ctx) {
 		if pkgOf(fn) != pkgKeystore {
 			continue
 		}
-		allInstrs(fn, func(in ssa.Instruction) {
+		allInstrsShallow(fn, func(in ssa.Instruction) {
 			mu, ok := in.(*ssa.MapUpdate)
 			if !ok {
 				return
@@ -982,6 +988,7 @@ func checkC06Found(c *Ctx) {
 			c.Bad(rule, key, c.Pos(f.Pos()), "reason=anchor-missing: GetPublicKeyOrdinal / parseMassDBArgsFromString")
 			return
 		}
+		f = hostFn(f, gs[0])
 		ord, idx := resultOf(gs[0], 0), resultOf(ps[0], 0)
 		found, lossy := false, ""
 		allInstrs(f, func(in ssa.Instruction) {
@@ -1041,7 +1048,7 @@ func checkRederiveOwnPath(c *Ctx, rule string) {
 				sameEntry := backSlice(callArgs(idxChild)[0]).has(base) || sameOriginValue(f, fieldBaseOf(callArgs(idxChild)[0]), base)
 				// branch selection
 				recv := callRecv(idxChild)
-				okBranch, whyB := branchPolarity(f, recv)
+				okBranch, whyB := branchPolarity(hostFn(f, idxChild), recv)
 				ok = sameEntry && okBranch
 				why = fmt.Sprintf("same-entry=%v branch-selection=%v (%s)", sameEntry, okBranch, whyB)
 			}
